@@ -54,23 +54,34 @@ class Pool(object):
         if r not in self.routes:
             e = self.cfg['routes'][r]
             rr = dict((n, 'rv') for n in e.get('route_res', []))
-            obj = Route(e['pattern'], R.make_endpoint(e['tag'], e['out']), methods=e['methods'], resources=rr)
+            obj = Route(e['pattern'], R.make_endpoint(e['tag'], e['out']), 'tmpl' if e['out'] == 'ctx' else None,
+                        methods=e['methods'], resources=rr)
             self.routes[r] = (obj, e, self.snapshot(obj))
         return self.routes[r][0]
 
     @staticmethod
     def snapshot(route):
-        return (route.pattern, sorted(route.methods or []), sorted(route.resources), list(route.middlewares), route.slash_mode)
+        return (route.pattern, sorted(route.methods or []), sorted(route.resources), list(route.middlewares), route.slash_mode,
+                route.render, getattr(route, 'bound_apps', None))
 
     def bound_entry(self, e, i, prefix=''):
         """Model entry of route spec *e* bound (first time) into application i."""
         return {'pattern': e.get('key', e['pattern']), 'actual': prefix + e['pattern'], 'prefix': prefix, 'mode': self.mode[i],
                 'methods': e['methods'], 'out': e['out'], 'tag': e['tag'],
-                'res': sorted(set(self.res[i]) | set(e.get('route_res', []))), 'nr': bool(self.cfg['apps'][i].get('nr_mw'))}
+                'res': sorted(set(self.res[i]) | set(e.get('route_res', []))), 'nr': bool(self.cfg['apps'][i].get('nr_mw')),
+                'render': ('F%d' % i) if (e['out'] == 'ctx' and self.cfg['apps'][i].get('factory')) else None, 'chain': [i]}
 
-    def embedded_entry(self, entry, i, prefix):
-        """Model entry of an already bound entry re-bound into application i under prefix."""
-        return dict(entry, actual=prefix + entry['actual'], prefix=prefix + entry['prefix'], mode=self.mode[i],
+    def embedded_entry(self, entry, i, prefix, rebind=False):
+        """Model entry of an already bound entry re-bound into application i under prefix.
+        Renderer: the inner route keeps its own unless re-binding was requested (or it has none yet); then the
+        most recently bound application that has a render factory makes it."""
+        chain = entry['chain'] + [i]
+        render = entry['render']
+        if entry['out'] == 'ctx' and (rebind or render is None):
+            withf = [a for a in chain if self.cfg['apps'][a].get('factory')]
+            if withf:
+                render = 'F%d' % withf[-1]
+        return dict(entry, actual=prefix + entry['actual'], prefix=prefix + entry['prefix'], mode=self.mode[i], render=render, chain=chain,
                     res=sorted(set(self.res[i]) | set(entry['res'])), nr=entry['nr'] or bool(self.cfg['apps'][i].get('nr_mw')))
 
 
@@ -95,7 +106,7 @@ class C11(Check):
     level_text = ('Every failure kind x position k of a multi-route operation is exercised across seeds (the per-operation '
                   'failure positions are few and swept: k in 0..2 for embedded applications and constructor lists); histories are sampled.')
     level_note = 'Trusted: the model routing tables and the dispatch model shared with C06.'
-    required_probes = ('failed-add-unchanged', 'sub-kth-fails-unchanged', 'ctor-failed', 'route-bound-twice', 'embedded-then-child-changed',
+    required_probes = ('context-rendered-by-factory', 'embed-with-rebind-render', 'failed-add-unchanged', 'sub-kth-fails-unchanged', 'ctor-failed', 'route-bound-twice', 'embedded-then-child-changed',
                        'embed-depth-2', 'add-at-index')
 
     # ---- generation --------------------------------------------------------
@@ -103,17 +114,18 @@ class C11(Check):
         S = Streams(seed)
         c, rng, frng = S['config'], S['ops'], S['faults']
         napps = c.randint(2, 4)
-        apps = [{'mode': c.choice(['redirect', 'redirect', 'rewrite']), 'nr_mw': c.random() < 0.4} for _ in range(napps)]
+        apps = [{'mode': c.choice(['redirect', 'redirect', 'rewrite']), 'nr_mw': c.random() < 0.4, 'factory': c.random() < 0.5}
+                for _ in range(napps)]
         routes = []
         for k in range(c.randint(3, 8)):
-            routes.append({'pattern': c.choice(sorted(R.CAT)), 'methods': c.choice(R.METHOD_SETS), 'out': c.choice(R.OUTCOMES),
+            routes.append({'pattern': c.choice(sorted(R.CAT)), 'methods': c.choice(R.METHOD_SETS), 'out': c.choice(R.OUTCOMES + ['ctx'] * 4),
                            'tag': 'R%d' % k, 'route_res': ['rr%d' % k] if c.random() < 0.3 else []})
         ops = []
         tagn = [0]
 
         def entry():
             tagn[0] += 1
-            return {'pattern': rng.choice(sorted(R.CAT)), 'methods': rng.choice(R.METHOD_SETS), 'out': rng.choice(R.OUTCOMES),
+            return {'pattern': rng.choice(sorted(R.CAT)), 'methods': rng.choice(R.METHOD_SETS), 'out': rng.choice(R.OUTCOMES + ['ctx'] * 3),
                     'tag': 't%d' % tagn[0]}
         live = set()
         nops = rng.randint(8, 24 if tier == 'quick' else 64)
@@ -139,7 +151,7 @@ class C11(Check):
             elif r < 0.55 and len(live) > 1:
                 j = rng.choice(sorted(live - set([i])))
                 ops.append({'op': 'embed', 'app': i, 'child': j, 'prefix': rng.choice(['/p', '/p/', '/sub/deep', '/']),
-                            'index': idx, 'form': rng.choice(['tuple', 'subapp'])})
+                            'index': idx, 'form': rng.choice(['tuple', 'subapp']), 'rebind': rng.random() < 0.3})
             elif r < 0.75:
                 ops.append({'op': 'add_fail', 'app': i, 'kind': frng.choice(FAIL_KINDS), 'k': frng.randint(0, 2), 'index': idx,
                             'entries': [entry() for _ in range(3)]})
@@ -180,7 +192,8 @@ class C11(Check):
                 elif n == k:
                     rts.append(Route('/zz%d' % n, ep, middlewares=[NonReorderable()]))   # parent has that unique type already
                 else:
-                    rts.append(Route(e['pattern'], R.make_endpoint(e['tag'], e['out']), methods=e['methods']))
+                    rts.append(Route(e['pattern'], R.make_endpoint(e['tag'], e['out']), 'tmpl' if e['out'] == 'ctx' else None,
+                                     methods=e['methods']))
             inner = Application(rts)
             return SubApplication('/inner', inner) if k % 2 else ('/inner', inner)
         raise InvalidPlan('unknown failure kind %r' % kind)
@@ -202,7 +215,8 @@ class C11(Check):
                     raise InvalidPlan('application exists')
                 pool.res[i] = set(pool.app_resources(i))
                 pool.mode[i] = cfg['apps'][i]['mode']
-                rts = [Route(e['pattern'], R.make_endpoint(e['tag'], e['out']), methods=e['methods']) for e in op['entries']]
+                rts = [Route(e['pattern'], R.make_endpoint(e['tag'], e['out']), 'tmpl' if e['out'] == 'ctx' else None,
+                             methods=e['methods']) for e in op['entries']]
                 model = [pool.bound_entry(e, i) for e in op['entries']]
                 if 'fail_at' in op:
                     bad = self.failing_entry(pool, i, op['fail_kind'], 0, [])
@@ -210,7 +224,8 @@ class C11(Check):
                     label = 'new_app_fail:%s@%d' % (op['fail_kind'], op['fail_at'])
                 try:
                     app = Application(rts, resources=pool.app_resources(i), slash_mode=pool.mode[i],
-                                      middlewares=[NonReorderable()] if cfg['apps'][i].get('nr_mw') else [])
+                                      middlewares=[NonReorderable()] if cfg['apps'][i].get('nr_mw') else [],
+                                      render_factory=R.make_render_factory('F%d' % i) if cfg['apps'][i].get('factory') else None)
                 except Exception as e:
                     if 'fail_at' not in op:
                         res.violate(K + 'setup-failed:%s' % type(e).__name__, 'step %d: valid constructor call raised %r' % (step, e), step)
@@ -231,7 +246,7 @@ class C11(Check):
                         res.probe('route-bound-twice')
                 else:
                     e = op['entry']
-                    obj = (e['pattern'], R.make_endpoint(e['tag'], e['out']))
+                    obj = (e['pattern'], R.make_endpoint(e['tag'], e['out'])) + (('tmpl',) if e['out'] == 'ctx' else ())
                     e = dict(e, methods=None)
                 try:
                     pool.apps[i].add(obj, index=op['index'])
@@ -244,8 +259,13 @@ class C11(Check):
                 if j not in pool.apps:
                     raise InvalidPlan('embedding an application that does not exist')
                 prefix = op['prefix'].rstrip('/')
-                entry = SubApplication(op['prefix'], pool.apps[j]) if op['form'] == 'subapp' else (op['prefix'], pool.apps[j])
-                new = [pool.embedded_entry(x, i, prefix) for x in pool.model[j]]
+                rebind = bool(op.get('rebind'))
+                if rebind:
+                    entry = SubApplication(op['prefix'], pool.apps[j], rebind_render=True)
+                    res.probe('embed-with-rebind-render')
+                else:
+                    entry = SubApplication(op['prefix'], pool.apps[j]) if op['form'] == 'subapp' else (op['prefix'], pool.apps[j])
+                new = [pool.embedded_entry(x, i, prefix, rebind) for x in pool.model[j]]
                 # the one legitimate failure: the parent and a route of the child both carry the unique,
                 # non-reorderable middleware type (documented ValueError) -- then nothing may change
                 must_fail = bool(cfg['apps'][i].get('nr_mw')) and any(x['nr'] for x in pool.model[j])
@@ -352,6 +372,11 @@ class C11(Check):
                 bad = ('visible-route-resources', 'route sees resources %r, expected %r' % (got['route_res'], ','.join(e['res'])))
             elif got['app_res'] != ','.join(sorted(pool.res[i])):
                 bad = ('visible-app-resources', 'application resources %r, expected %r' % (got['app_res'], ','.join(sorted(pool.res[i]))))
+            elif e['out'] == 'ctx' and got['rendered_by'] != e['render']:
+                bad = ('rendered-by-wrong-factory', 'rendered by %r, expected the renderer of %r (bound through applications %r)'
+                       % (got['rendered_by'], e['render'], e['chain']))
+            if e['out'] == 'ctx' and bad is None:
+                res.probe('context-rendered-by-factory')
         if bad:
             res.violate(K + 'behaviour-differs:%s:%s-app@%s' % (bad[0], whose, label.split('@')[0]),
                         'step %d after %s: application %d answers %s %s: %s\n model table: %s'
